@@ -163,23 +163,42 @@ def gen_surgery_op(rng: random.Random, target: list, m: MG, ops: tuple = SURGERY
     return None
 
 
-def gen_dsep_op(rng: random.Random, target: list, m: MG) -> dict | None:
-    """Draw one separation query (a, b | C) on the model graph m (acyclic, >= 2 nodes)."""
+def gen_dsep_op(rng: random.Random, target: list, m: MG, focus: list | None = None) -> dict | None:
+    """Draw one separation query (a, b | C) on the model graph m (acyclic, >= 2 nodes).
+
+    With `focus` (nodes the last edit introduced) half of the queries are drawn *around* such a node: the two
+    end points come from its neighbourhood, it is itself neither an end point nor conditioned on, its
+    neighbours are likely to be conditioned on -- so the answer depends on paths through the newcomer."""
     nodes = sorted(m.N)
     if len(nodes) < 2 or not m.is_acyclic() or not _is_plain(m):
         return None
-    a, b = rng.sample(nodes, 2)
-    rest = [x for x in nodes if x not in (a, b)]
-    r = rng.random()
-    if r < 0.15 or not rest:
-        C: list[str] = []
-    elif r < 0.45:
-        # bias: condition on endpoints of bidirected edges and on their descendants (colliders through latents)
-        bi = sorted({x for e in m.B for x in e} - {a, b})
-        pool = sorted(set(bi) | (m.descendants_inclusive(bi) - {a, b})) or rest
-        C = rng.sample(pool, rng.randint(1, len(pool)))
-    else:
-        C = rng.sample(rest, rng.randint(0, len(rest)))
+    f = None
+    if focus and rng.random() < 0.5:
+        cand = [x for x in focus if x in m.N]
+        f = rng.choice(cand) if cand else None
+    if f is not None:
+        nb1 = sorted({x for e in m.B if f in e for x in e if x != f} | m.parents(f) | m.children(f))
+        nb2 = sorted({y for x in nb1 for e in m.B if x in e for y in e} | {y for x in nb1 for y in m.parents(x) | m.children(x)})
+        pool = [x for x in sorted(set(nb1) | set(nb2)) if x != f]
+        if len(pool) >= 2:
+            a, b = rng.sample(pool, 2)
+            rest = [x for x in nodes if x not in (a, b, f)]
+            C = [x for x in rest if rng.random() < (0.6 if x in nb1 else 0.25)]
+        else:
+            f = None
+    if f is None:
+        a, b = rng.sample(nodes, 2)
+        rest = [x for x in nodes if x not in (a, b)]
+        r = rng.random()
+        if r < 0.15 or not rest:
+            C = []
+        elif r < 0.45:
+            # bias: condition on endpoints of bidirected edges and on their descendants (colliders through latents)
+            bi = sorted({x for e in m.B for x in e} - {a, b})
+            pool2 = sorted(set(bi) | (m.descendants_inclusive(bi) - {a, b})) or rest
+            C = rng.sample(pool2, rng.randint(1, len(pool2)))
+        else:
+            C = rng.sample(rest, rng.randint(0, len(rest)))
     c = rng.choice(("set", "frozenset", "list", "tuple", "none" if not C else "list", "dup-list"))
     spec = {"op": "are_d_separated", "t": target, "a": {"a": a, "b": b, "C": C, "c": c, "sym": rng.random() < 0.35}}
     if rng.random() < 0.04:
